@@ -483,7 +483,11 @@ def trace_inputs(trace):
     for st in trace:
         if st.get('stepType') == 'assignment' and not st.get('hidden'):
             lhs = st.get('lhs', '')
+            fn = st.get('sourceLocation', {}).get('function') or ''
             if lhs.startswith('__CPROVER') or lhs.startswith('return_value') or '$' in lhs and 'tmp' in lhs:
+                continue
+            # bookkeeping of the contract instrumentation (write sets, conditional address ranges) says nothing about the program
+            if fn.startswith('__CPROVER_contracts') or lhs.startswith(('__', 'car', 'write_set', 'set', 'ptr', 'elem')) or 'write_set' in lhs or '__car' in lhs:
                 continue
             v = st.get('value', {})
             val = v.get('data', v.get('name'))
